@@ -19,6 +19,9 @@ structure Sess where
   pmem   : Option Mem := none
   sparse : Bool := false
   quiet  : Bool := false
+  physSum : Bool := false
+  sumLine : Bool := false
+  smaybe : List Spec.Key := []
 
 def fmtSet (l : List Spec.Key) : String := fmtList (sortNat (l.map HT.encKey))
 
@@ -35,10 +38,14 @@ def obsS (s : Sess) : String :=
 def physM (s : Sess) (extra : String) : String :=
   match s.model with
   | none => "-"
-  | some t => fmtTable t.table s.iter s.pmodel s.piter ++ extra
+  | some t => fmtTable t.table s.iter s.pmodel s.piter s.sumLine ++ extra
 def invM (s : Sess) : Bool :=
-  (match s.model with | none => true | some t => decide (t.Inv s.cfg)) &&
-  pAgree (s.model.map (·.table)) s.iter s.pmodel s.piter s.pmem s.mem
+  (match s.model with
+   | none => true
+   | some t => if s.sumLine then decide (t.table.buckets.length = t.table.capacity)
+               else if s.physSum then invFast s.cfg t.table && t.table.buckets.flatten.all (fun e => e.value == HashSet.dummy) && t.table.triple == t.triple
+               else decide (t.Inv s.cfg)) &&
+  pAgree (s.model.map (·.table)) s.iter s.pmodel s.piter s.pmem s.mem (!s.sumLine)
 
 def lines (s : Sess) (hdS hdM : String) (extra : String := "") : Sess × String × String :=
   (s, s!"S {hdS} {obsS s}", s!"M {hdM} {obsM s} | {physM s extra} | {fmtMem s.mem} | {fmtFlags (invM s) s.mem}")
@@ -54,14 +61,16 @@ def step (s : Sess) (c : Cmd) : Sess × String × String :=
   let sparse := if isNew then c.str "obs" == some "sparse" else s.sparse
   let pcfg := if c.op == "new" then mkCfg c else if c.op == "new_default" then defaultCfg else s.cfg
   let (pm, pit, pmem) := pstep pcfg true s.pmodel s.piter c m
-  let s := { s with sparse := sparse, quiet := sparse && c.op != "observe", pmodel := pm, piter := pit, pmem := pmem }
+  let physSum := if isNew then c.str "phys" == some "sum" else s.physSum
+  let s := { s with sparse := sparse, quiet := sparse && c.op != "observe", pmodel := pm.map compactHeap, piter := pit, pmem := pmem,
+                    physSum := physSum, sumLine := physSum && c.op != "observe" }
   match c.op with
   | "new" | "new_default" =>
     let cfg := if c.op == "new" then mkCfg c else defaultCfg
     let cap := if c.op == "new" then c.nat "cap" 16 else Gen.HASHTABLE_DEFAULT_CAPACITY
     let (st, t, m) := HashSet.new cfg cap (if c.op == "new" then .conf else .libc) m
     let (sst, sp) := if c.fired > 0 then (Stat.errAlloc, none) else (Stat.ok, some [])
-    lines { cfg := cfg, model := t, spec := sp, mem := m, sparse := s.sparse, quiet := s.quiet, pmodel := s.pmodel, piter := s.piter, pmem := s.pmem } (fmtStat sst) (fmtStat st)
+    lines { cfg := cfg, model := t, spec := sp, mem := m, sparse := s.sparse, quiet := s.quiet, pmodel := s.pmodel, piter := s.piter, pmem := s.pmem, physSum := s.physSum, sumLine := s.sumLine } (fmtStat sst) (fmtStat st)
   | _ =>
   match s.model, s.spec with
   | some t, some sp =>
@@ -70,7 +79,9 @@ def step (s : Sess) (c : Cmd) : Sess × String × String :=
       let k := key (c.arg 0)
       let (st, t', m) := t.add s.cfg k m
       let (sst, sp') := if c.fired > 0 then (Stat.errAlloc, sp) else (Stat.ok, if sp.contains k then sp else k :: sp)
-      lines { s with model := some t', spec := some sp', iter := none, mem := m } (fmtStat sst) (fmtStat st)
+      let keep := t'.table.capacity == t.table.capacity
+      let maybe := if sst == .ok && !sp.contains k then k :: s.smaybe else s.smaybe
+      lines { s with model := some t', spec := some sp', iter := if keep then s.iter else none, smaybe := maybe, mem := m } (fmtStat sst) (fmtStat st)
     | "contains" =>
       let (b, m) := t.contains s.cfg (key (c.arg 0)) m
       lines { s with mem := m } s!"st=- out={if sp.contains (key (c.arg 0)) then 1 else 0}" s!"st=- out={if b then 1 else 0}"
@@ -79,7 +90,11 @@ def step (s : Sess) (c : Cmd) : Sess × String × String :=
       let k := key (c.arg 0)
       let (st, out, t', m) := t.remove s.cfg k m
       let sst : Stat := if sp.contains k then .ok else .errValueNotFound
-      lines { s with model := some t', spec := some (sp.erase k), iter := none, mem := m } (fmtStat sst) (fmtStat st) (rmout noout st out)
+      let it' := match s.iter with
+        | some i => if i.prev == some k || i.next == some k then none else some i
+        | none => none
+      lines { s with model := some t', spec := some (sp.erase k), iter := it', stodo := s.stodo.erase k, smaybe := s.smaybe.erase k, mem := m }
+        (fmtStat sst) (fmtStat st) (rmout noout st out)
     | "remove_all" =>
       let (t', m) := t.removeAll m
       lines { s with model := some t', spec := some [], iter := none, mem := m } "st=-" "st=-"
@@ -89,7 +104,7 @@ def step (s : Sess) (c : Cmd) : Sess × String × String :=
       lines { s with mem := m } s!"st=- cb={fmtSet sp}" s!"st=- cb={fmtList (sortNat ks)}" s!" ord={fmtList ks}"
     | "it_new" =>
       let (it, m) := t.iterInit m
-      lines { s with iter := some it, stodo := sp, slast := none, mem := m } "st=-" "st=-"
+      lines { s with iter := some it, stodo := sp, smaybe := [], slast := none, mem := m } "st=-" "st=-"
     | "it_next" =>
       match s.iter with
       | none => lines { s with mem := m } "st=- noiter" "st=- noiter"
@@ -98,14 +113,16 @@ def step (s : Sess) (c : Cmd) : Sess × String × String :=
         let (st, e, it', m) := t.iterNext it m
         let kstr (k : Spec.Key) := if noout then "" else s!" k={HT.encKey k}"
         let hdM := match e with | some k => s!"{fmtStat st}{kstr k}" | none => fmtStat st
-        let (hdS, todo, last) :=
-          if s.stodo.isEmpty then (fmtStat .iterEnd, s.stodo, s.slast) else
+        let (hdS, todo, maybe, last) :=
           match e with
           | some k =>
-            if s.stodo.contains k && sp.contains k then (s!"{fmtStat .ok}{kstr k}", s.stodo.erase k, some k)
-            else (s!"{fmtStat .ok} k=not-pending", s.stodo, s.slast)
-          | none => (s!"{fmtStat .ok} k=pending-elements-left", s.stodo, s.slast)
-        lines { s with iter := some it', stodo := todo, slast := last, mem := m } hdS hdM
+            if (s.stodo.contains k || s.smaybe.contains k) && sp.contains k then
+              (s!"{fmtStat .ok}{kstr k}", s.stodo.erase k, s.smaybe.erase k, some k)
+            else (s!"{fmtStat .ok} k=not-pending", s.stodo, s.smaybe, s.slast)
+          | none =>
+            if s.stodo.isEmpty then (fmtStat .iterEnd, s.stodo, s.smaybe, s.slast)
+            else (s!"{fmtStat .ok} k=pending-elements-left", s.stodo, s.smaybe, s.slast)
+        lines { s with iter := some it', stodo := todo, smaybe := maybe, slast := last, mem := m } hdS hdM
     | "it_remove" =>
       match s.iter with
       | some it =>
@@ -118,7 +135,7 @@ def step (s : Sess) (c : Cmd) : Sess × String × String :=
         lines { s with model := some t', spec := some sp', iter := some it', slast := last, mem := m } (fmtStat sst) (fmtStat st) (rmout noout st out)
       | none => lines { s with mem := m } "st=- noiter" "st=- noiter"
     | "destroy" =>
-      lines { cfg := s.cfg, mem := t.destroy m, sparse := s.sparse, quiet := s.quiet, pmodel := s.pmodel, piter := s.piter, pmem := s.pmem } "st=-" "st=-"
+      lines { cfg := s.cfg, mem := t.destroy m, sparse := s.sparse, quiet := s.quiet, pmodel := s.pmodel, piter := s.piter, pmem := s.pmem, physSum := s.physSum, sumLine := s.sumLine } "st=-" "st=-"
     | "observe" => lines { s with mem := m } "st=-" "st=-"
     | _ => lines { s with mem := m } "st=- badop" "st=- badop"
   | _, _ => lines { s with mem := m } "st=- nosession" "st=- nosession"
